@@ -123,6 +123,13 @@ def run(ctx):
         if rv == "search->dag":
             g = paths.guarded(f, r, lambda fn, cc, pol: paths.rel(fn, cc, pol) in (("search->dag->n_frames", "==", "search->frame"), ("search->frame", "==", "search->dag->n_frames"))) and paths.guarded(f, r, lambda fn, cc, pol: paths.cond_atoms(fn, cc, pol) == ("search->dag", True))
             ctx.check(l3, g, key(f, "cache-hit"), f.where(r), "cached lattice returned without the dominating `dag && dag->n_frames == frame` test")
+    # the key of the cache is fixed when the lattice is created: nobody else writes it
+    writers = []
+    for g in P.repo_functions():
+        for s_ in paths.stores(g):
+            if s_["field"] == "n_frames" and s_["rec"] == "lattice_s":
+                writers.append((g, s_["node"]))
+    ctx.check(l3, [g.name for (g, _n) in writers] == ["lattice_init_search"], key(f, "key-writers"), writers[-1][0].where(writers[-1][1]) if writers else f.where(f.root), "the frame count of a lattice - the key the cache compares with the search's frame - is written by %s: once it differs from the frame count it was built for, every request builds and returns a new lattice and releases the one callers still hold" % sorted({g.name for (g, _n) in writers}))
     fr = f.calls("lattice_free")
     init = f.calls("lattice_init_search")
     ok = len(init) == 1 and any(f.canon(f.args(x)[0]) == "search->dag" and paths.always_before(f, init[0], lambda e, x=x: e == x) for x in fr)
